@@ -368,6 +368,8 @@ def main(tier):
     rule_D(ck, units)
     rule_E(ck, units)
     import c11
+    import c14
+    c14.rule_F(ck, T)          # run-time distributed relaxations are built from the operand their compile-time classes use (shared with C14)
     c11.rule_J(ck, units)      # buffers of nonblocking operations are stable and alive until completion (shared with C11)
     c11.rule_H(ck, units)      # messages are taken from / put at their own slice (shared with C11)
     c11.rule_G(ck, units)      # transfer operators moved with keep_src stay intact for the next coarsening step (shared with C11)
